@@ -939,6 +939,11 @@ def t_access(ctx, prog):
             ('VariantAccess', 'struct_variant', [Atom('fields'), Atom('visitor')], [('ITEM', 'MAP', Int.const(2))], ('VISIT:visit_map:Seq(Some(2))',), 1),
             ('VariantAccess', 'struct_variant', [Atom('fields'), Atom('visitor')], [('ITEM', 'BEGIN', 'map')], ('VISIT:visit_map:Seq(None)',), 1),
             ('VariantAccess', 'struct_variant', [Atom('fields'), Atom('visitor')], [('ITEM', 'ARRAY', Int.const(2))], 'err', 0)]
+    # unit_variant must leave whatever follows alone: the next item belongs to the enclosing container (a null there is the
+    # `None` of the next element, not the content of this variant)
+    for uk, item in universe(prog.feature('half')):
+        if uk != 'leaf':
+            spec.append(('VariantAccess', 'unit_variant', [], [item] if item is not None else [], (), 0))
     for tr, meth, extra, stream, wantev, wantcur in spec:
         inst = prog.one(ENUM % (tr, meth))
         if inst is None:
@@ -981,7 +986,7 @@ def t_access(ctx, prog):
                     ctx.violation('T-ACCESS.enum', key + '|value', 'variant_seed returns %r instead of (identifier, the same access)' % (v,), where)
         if good:
             ctx.ok('T-ACCESS.enum', key)
-    ctx.floor('T-ACCESS.enum', 'cases', k, 9)
+    ctx.floor('T-ACCESS.enum', 'cases', k, 30)
 
 
 # ---------------------------------------------------------------------------
